@@ -59,7 +59,12 @@ def decPos (rows : Nat) (p : Nat) : Option Spec.Pos :=
 /-- C16 oracle for `ProofPositions` (from the property text, geometry only): for sorted,
 duplicate-free targets that are positions of a forest with `n` leaves, the first result is
 exactly the siblings on the targets' paths that are neither targets nor computable, the
-second exactly the computable ancestors.  Returns `none` when the oracle does not apply. -/
+second exactly the computable ancestors.  Returns `none` when the oracle does not apply.
+The third component says whether some target is a strict ancestor of another: deviations in
+that class were the recorded finding `C16.proofpositions.nested`; with the repaired
+`ProofPositions` (per-row `slices.Compact`, `Props.C16.proofPositions_spec_all`) there are
+none, and the classification is kept so that a regression to the old behaviour shows up as a
+KNOWN event of a class that is no longer listed as open (= a violation). -/
 def proofPositionsSpec (ts : List Nat) (n rows : Nat) : Option (List Nat × List Nat × Bool) := do
   let ps ← ts.mapM (decPos rows)
   if !(ps.all fun (r, o) => (o + 1) * 2 ^ r ≤ n) then none
@@ -93,6 +98,9 @@ def handleFn (line : String) (toks : List String) : M Unit := do
               match proofPositionsSpec ts n rows with
               | some (ep, ec, nested) =>
                 count "oracle:ProofPositions" line (!ts.isEmpty)
+                -- nested target sets (a target is an ancestor of another): canonical since the
+                -- repair of C16.proofpositions.nested; counted to show they are exercised
+                if nested then count "oracle:ProofPositions:nested" line
                 let gpS := gp.mergeSort (· ≤ ·)
                 let gcS := gc.mergeSort (· ≤ ·)
                 if gpS != ep.mergeSort (· ≤ ·) || gcS != ec.mergeSort (· ≤ ·) then
